@@ -40,6 +40,10 @@ func handleFuncOptsF64(expShape Shape, o DataOrder, opts ...FuncOpt) (reuse Dens
 }
 
 func prepDataVSF64(a Tensor, b interface{}, reuse Tensor) (dataA *storage.Header, dataB float64, dataReuse *storage.Header, ait, iit Iterator, useIter bool, err error) {
+	if reuse != nil {
+		a = operandFor(a, reuse, true)
+	}
+
 	// get data
 	dataA = a.hdr()
 	switch bt := b.(type) {
